@@ -484,20 +484,24 @@ def invalid_cells(tier: str, seed: int):
                           ("shrink-below-occupied-levels", "ce", ["e1.f"], {"new": -3})]
                 for what, entry, tg, extra in plans:
                     n += 1
-                    if quick and n % 5 != 0 and not (what == "wrong-kind-with-used-operation" and n % 2 == 0) and not ("ktype" in extra and n % 3 == 0):
-                        continue
                     if what == "shrink-below-occupied-levels" and cls == "basis":
                         continue
                     if what == "shrink-below-occupied-levels":
                         cls_used = {"pure": "ghz", "mixed": "classical"}.get(cls, cls) if n % 2 else cls
                     else:
                         cls_used = cls
+                    # quick tier: a stride sample, except for the small families whose detection power must not depend on the stride
+                    # (states with diagonal reduced state for shrink requests, used Operation objects, the kinds of invalid Kraus sets)
+                    keep = (what == "shrink-below-occupied-levels" and cls_used in ("ghz", "classical")) or (what == "wrong-kind-with-used-operation" and n % 2 == 0) \
+                        or ("ktype" in extra and n % 3 == 0)
+                    if quick and n % 5 != 0 and not keep:
+                        continue
                     spec = LY.make_spec(blocks, levels, {}, default_level=dl, default_cls=cls_used, bystander=(n % 7 == 0),
                                         fock_dims=({"e0": 2} if what == "wrong-kind-with-used-operation" else None))
                     a = {"kind": "invalid", "what": what, "entry": entry, "targets": [LY.rename(spec, t) for t in tg],
                          "then": [dict(CONT[tg[0]], targets=[LY.rename(spec, tg[0])])] if tg[0] in CONT else [], **extra}
                     cells.append(_cell(spec, tag, ltag, cls, bool(n % 2), seed, a, variant=what + (":" + extra["ktype"] if "ktype" in extra else ""), ntargets=len(tg),
-                                       target_store="+".join(sorted({LY.block_of(blocks, t)[0] for t in tg}))))
+                                       target_store="+".join(sorted({LY.block_of(blocks, t)[0] for t in tg})), always=bool(keep)))
     # vacuum annihilation: the target Fock is in |0> (possibly entangled partners elsewhere)
     for tag, blocks in (("own", []), ("env01", [("env", ["e0.f", "e0.p"])]), ("ps:f0,p1", [("ps", ["e0.f", "e1.p"])]), ("ps:c0,f0", [("ps", ["c0", "e0.f"])])):
         for lv in ("L", "V", "M"):
